@@ -190,7 +190,7 @@ def _cases(ctx: Ctx) -> tuple[list[tuple[list[int], list[int]]], dict, list[dict
     return cases + sim, table, targets, prefix
 
 
-DOMAINS = ["domain.test", "corp.example.com", "Domain.Test", "a.b"]
+DOMAINS = ["domain.test", "corp.example.com", "Domain.Test", "a.b", "corp", "LAB", "x"]     # also single-label names
 
 
 def run(ctx: Ctx) -> int:
